@@ -21,7 +21,8 @@ PROP = dict(
                "for a taken-over connected MQTT 5 session with expiry 0 is a documented don't-care of the monitor.",
     engines=[dict(hx="life", args=["C14"], model="life14"),
              dict(hx="takeover_sched", args=["C14"], model="takeover_sched"),
-             dict(hx="connack_sched", args=["C14"], model="connack_sched")],
+             dict(hx="connack_sched", args=["C14"], model="connack_sched"),
+             dict(hx="restart_life", timeout=900)],
     theorems=["C14_sp", "C14_resume_keeps", "C14_clean_drops", "C14_old_silent",
               "C14_registered_schedules_refuted", "C14_registered_modulo_findings",
               "C14_keeps_schedules_refuted", "C14_keeps_modulo_findings"],
@@ -32,7 +33,12 @@ PROP = dict(
          "operations over two client ids; forced schedules: stale takeover check x clean 0/1, sequential orders, an old connection that stopped for its own "
          "reason before the takeover (own DISCONNECT, parked at attach.readReturned until the new connection is through; "
          "Compatibilities.PassiveClientDisconnect: not stopped by the takeover, closes later) x clean 0/1, publish "
-         "inside/outside the inherit window x MQTT 4/5.  non-trivial = history of more than two steps or a forced schedule",
+         "inside/outside the inherit window x MQTT 4/5.  restart_life (w-storage): histories over two broker processes on one "
+         "store of each of the four storage back ends (first process shut down or killed, store-loading step, the client id "
+         "comes back with Clean Start 1 / a new persistent session, final restart): at a Clean Start nothing is recorded for "
+         "the client id any more, and neither the broker's memory nor the state restored later holds a subscription or "
+         "in-flight message older than the clean start (session present is not observed by this engine).  "
+         "non-trivial = history of more than two steps or a forced schedule",
     modelled="server.go attachClient, inheritClientSession, DisconnectClient, UnsubscribeClient, SendConnack, the handler "
              "tail of attachClient; clients.go ParseConnect, Stop, ResendInflightMessages (as a multiset)",
     assumptions=["connection numbers name distinct network connections (fresh_conns)",
